@@ -41,23 +41,22 @@ layer answers. -/
 theorem ml_get_first_holder (env : Env) (s : State) (k : Key) :
     (MultiLayer.get env s k).out = .val (firstHit (peeks s k)) := by
   have h := scan_out k s.slots 0
-  unfold MultiLayer.get peeks
+  unfold peeks
   cases hq : (scan k s.slots 0).2 with
-  | none => rw [hq] at h; dsimp only; rw [← h]; rfl
-  | some p => obtain ⟨i, v⟩ := p; rw [hq] at h; dsimp only; rw [← h]; rfl
+  | none => rw [hq] at h; rw [get_of_none env s k hq, ← h]; rfl
+  | some p => obtain ⟨i, v⟩ := p; rw [hq] at h; rw [get_of_some env s k hq, ← h]; rfl
 
 /-- whenever `get_with_validation` hands out a value it is that same first holder's value -/
 theorem ml_getv_first_holder (env : Env) (s : State) (k : Key) (ock : Option CK) (o : Option Val)
     (h : (getv env s k ock).out = .val o) : o = firstHit (peeks s k) := by
   have hs := scan_out k s.slots 0
-  unfold getv at h
   unfold peeks
   cases hq : (scan k s.slots 0).2 with
-  | none => rw [hq] at h hs; dsimp only at h; rw [← hs]; cases h; rfl
+  | none => rw [hq] at hs; rw [getv_of_none env s k ock hq] at h; rw [← hs]; cases h; rfl
   | some p =>
     obtain ⟨i, v⟩ := p
-    rw [hq] at h hs
-    dsimp only at h
+    rw [hq] at hs
+    rw [getv_of_some env s k ock hq] at h
     rw [← hs]
     split at h
     · split at h <;> first | (cases h; rfl) | cases h
@@ -197,18 +196,18 @@ theorem absent_put_st (env : Env) {s : State} {k : Key} (k' : Key) (v : Val) (o 
 theorem absent_getv_st (env : Env) {s : State} {k : Key} (k' : Key) (ock : Option CK) (h : AllAbsent s k) :
     AllAbsent (getv env s k' ock).st k := by
   have hsc := scan_pres (Absent · k) k' (fun l hl => absent_get k' hl) s.slots 0 h
-  unfold getv
   cases hq : (scan k' s.slots 0).2 with
-  | none => exact hsc
+  | none => rw [getv_of_none env s k' ock hq]; exact hsc
   | some p =>
     obtain ⟨i, v⟩ := p
-    dsimp only
+    rw [getv_of_some env s k' ock hq]
+    have ha : AllAbsent (afterHit s k' i) k := hsc
     split
     · split
-      · exact hsc
-      · exact absent_remove_st (s := { s with slots := (scan k' s.slots 0).1, tracker := touch s.tracker k' i }) k' hsc
-      · exact absent_remove_st (s := { s with slots := (scan k' s.slots 0).1, tracker := touch s.tracker k' i }) k' hsc
-    · exact hsc
+      · exact ha
+      · exact absent_remove_st k' ha
+      · exact absent_remove_st k' ha
+    · exact ha
 
 theorem absent_batchGet (env : Env) {k : Key} : ∀ (ks : List Key) (s : State), AllAbsent s k →
     AllAbsent (batchGet env s ks).1 k := by
@@ -248,23 +247,26 @@ theorem ml_absent_preserved (env : Env) (s : State) (op : Op) (k : Key) (h : All
   | put k' v => exact absent_put_st env k' v none (ne_of k' hw) h
   | putTtl k' v c => exact absent_put_st env k' v (some c) (ne_of k' hw) h
   | putToLayer k' v i =>
-    unfold step putToLayer
+    simp only [step]
+    unfold putToLayer
     split
     · exact h
     · exact modifyAt_pres (Absent · k) _ (fun l hl => absent_put env.victims k' v (ne_of k' hw) hl) s.slots i h
   | get k' =>
     have hsc := scan_pres (Absent · k) k' (fun l hl => absent_get k' hl) s.slots 0 h
-    unfold step MultiLayer.get
+    simp only [step]
     cases hq : (scan k' s.slots 0).2 with
-    | none => exact hsc
-    | some p => exact hsc
+    | none => rw [get_of_none env s k' hq]; exact hsc
+    | some p => obtain ⟨i, v⟩ := p; rw [get_of_some env s k' hq]; exact hsc
   | getFromLayer k' i =>
-    unfold step getFromLayer
+    simp only [step]
+    unfold getFromLayer
     split
     · exact h
     · exact modifyAt_pres (Absent · k) _ (fun l hl => absent_get k' hl) s.slots i h
   | promote k' a b =>
-    unfold step promote
+    simp only [step]
+    unfold promote
     split
     · rename_i l _ hl _
       split
@@ -287,7 +289,8 @@ theorem ml_absent_preserved (env : Env) (s : State) (op : Op) (k : Key) (h : All
   | batchGet ks => exact absent_batchGet env ks s h
   | batchPut kvs => exact absent_batchPut env kvs s hw h
   | putv k' ck v =>
-    unfold step putv
+    simp only [step]
+    unfold putv
     split
     · exact absent_put_st env k' v none (ne_of k' hw) h
     · split
@@ -328,12 +331,11 @@ code has two copies of the layer loop) -/
 theorem ml_getv_none_eq_get (env : Env) (s : State) (k : Key) :
     (getv env s k none).st = (MultiLayer.get env s k).st ∧ (getv env s k none).out = (MultiLayer.get env s k).out ∧
       (getv env s k none).trace = (MultiLayer.get env s k).trace := by
-  unfold getv MultiLayer.get
   cases hq : (scan k s.slots 0).2 with
-  | none => exact ⟨rfl, rfl, rfl⟩
+  | none => rw [getv_of_none env s k none hq, get_of_none env s k hq]; exact ⟨rfl, rfl, rfl⟩
   | some p =>
     obtain ⟨i, v⟩ := p
-    dsimp only
+    rw [getv_of_some env s k none hq, get_of_some env s k hq]
     cases env.hooks <;> exact ⟨rfl, rfl, rfl⟩
 
 /-- key-by-key `get` -/
@@ -353,13 +355,12 @@ theorem ml_batch_get_eq_gets (env : Env) : ∀ (ks : List Key) (s : State),
   | cons k t ih =>
     intro s
     obtain ⟨h1, h2, _⟩ := ml_getv_none_eq_get env s k
-    unfold batchGet seqGet
-    dsimp only
-    rw [h1, h2]
-    have := ih (MultiLayer.get env s k).st
-    rw [Prod.ext_iff] at this
-    dsimp only at this
-    rw [this.1, this.2]
+    have ih' := ih (MultiLayer.get env s k).st
+    have e1 := congrArg Prod.fst ih'
+    have e2 := congrArg Prod.snd ih'
+    simp only at e1 e2
+    simp only [batchGet, seqGet, h1, h2, e1, e2]
+    cases (MultiLayer.get env s k).out <;> rfl
 
 /-- `batch_put` is `put` item by item -/
 theorem ml_batch_put_eq_puts (env : Env) (s : State) (kvs : List (Key × Val)) :
@@ -375,14 +376,11 @@ accepted it for that key (or declared it exempt) -/
 theorem ml_validation_sound (env : Env) (h : Hooks) (s : State) (k : Key) (ck : CK) (v : Val)
     (hh : env.hooks = some h) (ho : (getv env s k (some ck)).out = .val (some v)) :
     h.skip ck v.length = true ∨ h.check ck v = .valid := by
-  unfold getv at ho
   cases hq : (scan k s.slots 0).2 with
-  | none => rw [hq] at ho; cases ho
+  | none => rw [getv_of_none env s k _ hq] at ho; cases ho
   | some p =>
     obtain ⟨i, w⟩ := p
-    rw [hq] at ho
-    dsimp only at ho
-    rw [hh] at ho
+    rw [getv_of_some env s k _ hq, hh] at ho
     dsimp only at ho
     cases hv : validate h ck w with
     | ok =>
@@ -431,8 +429,8 @@ theorem ml_putv_sound (env : Env) (h : Hooks) (s : State) (k : Key) (ck : CK) (v
       | valid => rfl
       | invalid => rw [hc] at hv; cases hv
       | error => rw [hc] at hv; cases hv
-  | failed => exact ⟨fun ho => by cases ho, fun _ => rfl⟩
-  | hookErr => exact ⟨fun ho => by cases ho, fun _ => rfl⟩
+  | failed => exact ⟨fun ho => (by cases ho), fun _ => rfl⟩
+  | hookErr => exact ⟨fun ho => (by cases ho), fun _ => rfl⟩
 
 /-! ## 7  a corrupted entry is dropped everywhere -/
 
@@ -441,20 +439,23 @@ every layer -/
 theorem ml_corrupt_dropped_everywhere (env : Env) (s : State) (k : Key) (ock : Option CK)
     (ho : (getv env s k ock).out = .err .corruption ∨ (getv env s k ock).out = .err .backend) :
     AllAbsent (getv env s k ock).st k := by
-  unfold getv at ho ⊢
   cases hq : (scan k s.slots 0).2 with
-  | none => rw [hq] at ho; rcases ho with ho | ho <;> cases ho
+  | none => rw [getv_of_none env s k _ hq] at ho; rcases ho with ho | ho <;> cases ho
   | some p =>
     obtain ⟨i, w⟩ := p
-    rw [hq] at ho
-    dsimp only at ho ⊢
-    split at ho
-    · rename_i h ck _ _
-      split at ho
-      · rcases ho with ho | ho <;> cases ho
-      · rename_i hv; simp only [hv]; exact ml_remove_all_layers _ k
-      · rename_i hv; simp only [hv]; exact ml_remove_all_layers _ k
-    · rcases ho with ho | ho <;> cases ho
+    rw [getv_of_some env s k _ hq] at ho ⊢
+    cases hh : env.hooks with
+    | none => rw [hh] at ho; cases ock <;> rcases ho with ho | ho <;> cases ho
+    | some hk =>
+      cases ock with
+      | none => rw [hh] at ho; rcases ho with ho | ho <;> cases ho
+      | some ck =>
+        rw [hh] at ho
+        dsimp only at ho ⊢
+        cases hv : validate hk ck w with
+        | ok => rw [hv] at ho; rcases ho with ho | ho <;> cases ho
+        | failed => exact ml_remove_all_layers _ k
+        | hookErr => exact ml_remove_all_layers _ k
 
 /-- … and is not served later either: after the corruption report, any history that does not
 write the key again gets none for it -/
@@ -474,12 +475,11 @@ theorem lockOk_batchGet (env : Env) (hg : ∀ s k, lockOk (getv env s k none).tr
   | cons k t ih => intro s; exact lockOk_append (hg s k) (ih _)
 
 theorem lockOk_getv (env : Env) (s : State) (k : Key) (ock : Option CK) : lockOk (getv env s k ock).trace = true := by
-  unfold getv
   cases hq : (scan k s.slots 0).2 with
-  | none => rfl
+  | none => rw [getv_of_none env s k _ hq]; rfl
   | some p =>
     obtain ⟨i, w⟩ := p
-    dsimp only
+    rw [getv_of_some env s k _ hq]
     split
     · split <;> first | exact lockOk_pair | (unfold remove; decide)
     · exact lockOk_pair
@@ -498,15 +498,20 @@ theorem ml_no_self_deadlock (env : Env) (s : State) (op : Op) : lockOk (step env
   cases op with
   | put k v => exact lockOk_pair
   | putTtl k v c => exact lockOk_pair
-  | putToLayer k v i => unfold step putToLayer; split <;> rfl
+  | putToLayer k v i =>
+    show lockOk (putToLayer env s k v i).trace = true
+    unfold putToLayer; split <;> rfl
   | get k =>
-    unfold step MultiLayer.get
+    simp only [step]
     cases hq : (scan k s.slots 0).2 with
-    | none => rfl
-    | some p => exact lockOk_pair
-  | getFromLayer k i => unfold step getFromLayer; split <;> rfl
+    | none => rw [get_of_none env s k hq]; rfl
+    | some p => obtain ⟨i, v⟩ := p; rw [get_of_some env s k hq]; exact lockOk_pair
+  | getFromLayer k i =>
+    show lockOk (getFromLayer s k i).trace = true
+    unfold getFromLayer; split <;> rfl
   | promote k a b =>
-    unfold step promote
+    simp only [step]
+    unfold promote
     split
     · split
       · rfl
@@ -517,7 +522,8 @@ theorem ml_no_self_deadlock (env : Env) (s : State) (op : Op) : lockOk (step env
   | batchGet ks => exact lockOk_batchGet env (fun s k => lockOk_getv env s k none) ks s
   | batchPut kvs => exact lockOk_batchPut env kvs s
   | putv k ck v =>
-    unfold step putv
+    simp only [step]
+    unfold putv
     split
     · exact lockOk_pair
     · split <;> first | exact lockOk_pair | rfl
@@ -564,7 +570,7 @@ theorem ml_latest_put_counterexample :
 /-- the mirror image: `put(7,[1]); put_to_layer(7,[2],1); get 7` answers `[1]`, the older value
 in the faster layer shadows the latest put (finding `ml-stale-shadowed-by-upper-layer`). -/
 theorem ml_shadowed_counterexample :
-    (MultiLayer.get envDet (run envDet twoLayers [.put 7 [1], .putToLayer 7 [2] 1]) 7).out = .val (some [2]) → False := by
+    (MultiLayer.get envDet (run envDet twoLayers [.put 7 [1], .putToLayer 7 [2] 1]) 7).out = .val (some [1]) := by
   decide +kernel
 
 /-- every layer serves only the reference map's values -/
@@ -607,6 +613,21 @@ def Fresh (env : Env) : State → List Op → Prop
   | _, [] => True
   | s, op :: t => fresh env s op ∧ Fresh env (step env s op).st t
 
+instance decFreshPuts (env : Env) : ∀ (kvs : List (Key × Val)) (s : State), Decidable (freshPuts env s kvs)
+  | [], _ => isTrue trivial
+  | (k, v) :: t, s => by
+    unfold freshPuts
+    exact @instDecidableAnd _ _ inferInstance (decFreshPuts env t _)
+
+instance decFresh1 (env : Env) (s : State) (op : Op) : Decidable (fresh env s op) := by
+  cases op <;> unfold fresh <;> infer_instance
+
+instance decFresh (env : Env) : ∀ (ops : List Op) (s : State), Decidable (Fresh env s ops)
+  | [], _ => isTrue trivial
+  | op :: t, s => by
+    unfold Fresh
+    exact @instDecidableAnd _ _ inferInstance (decFresh env t _)
+
 def refRun (env : Env) : State → Ref → List Op → Ref
   | _, r, [] => r
   | s, r, op :: t => refRun env (step env s op).st (CacheMap.run r (absOps env s op)) t
@@ -623,16 +644,13 @@ theorem coh_putWith (env : Env) {s : State} {r : Ref} (k : Key) (v : Val) (o : O
   | some c =>
     exact modifyAt_write _ (fun l hl => lref_putTtl env.victims k v c hl) (step_put_other r k v _) s.slots 0 h hf
   | none =>
-    dsimp only
-    -- the default TTL is that of the first layer
-    cases hs : s.slots with
-    | nil => intro sl hsl; rw [hs] at hsl; cases hsl
+    obtain ⟨slots, tr, pr⟩ := s
+    cases slots with
+    | nil => intro sl hsl; cases hsl
     | cons sl0 rest =>
-      have hh : headShort s = sl0.layer.defaultShort := by unfold headShort; rw [hs]
-      rw [hh]
-      rw [hs] at h hf
       intro sl hsl
       have hsl : sl ∈ { sl0 with layer := sl0.layer.put env.victims k v } :: rest := hsl
+      show LRef sl.layer (CacheMap.step r (.put k v (!sl0.layer.defaultShort)))
       rcases List.mem_cons.mp hsl with heq | hm
       · subst heq
         exact lref_putTtl env.victims k v _ (h sl0 List.mem_cons_self)
@@ -684,18 +702,18 @@ theorem step_remove_le (r : Ref) (k : Key) : ∀ k' w, CacheMap.step r (.remove 
 theorem coh_getv (env : Env) {s : State} {r : Ref} (k : Key) (ock : Option CK) (h : Coh s r) :
     Coh (getv env s k ock).st r := by
   have hsc := coh_scan k h
-  unfold getv
   cases hq : (scan k s.slots 0).2 with
-  | none => exact hsc
+  | none => rw [getv_of_none env s k ock hq]; exact hsc
   | some p =>
     obtain ⟨i, v⟩ := p
-    dsimp only
+    rw [getv_of_some env s k ock hq]
+    have ha : Coh (afterHit s k i) r := hsc
     split
     · split
-      · exact hsc
-      · exact coh_weaken (coh_remove (s := { s with slots := (scan k s.slots 0).1, tracker := touch s.tracker k i }) k hsc) (step_remove_le r k)
-      · exact coh_weaken (coh_remove (s := { s with slots := (scan k s.slots 0).1, tracker := touch s.tracker k i }) k hsc) (step_remove_le r k)
-    · exact hsc
+      · exact ha
+      · exact coh_weaken (coh_remove k ha) (step_remove_le r k)
+      · exact coh_weaken (coh_remove k ha) (step_remove_le r k)
+    · exact ha
 
 theorem coh_batchGet (env : Env) {r : Ref} : ∀ (ks : List Key) (s : State), Coh s r → Coh (batchGet env s ks).1 r := by
   intro ks
@@ -711,13 +729,14 @@ theorem coh_step (env : Env) {s : State} {r : Ref} (op : Op) (h : Coh s r) (hf :
   | put k v => exact coh_putWith env k v none h hf
   | putTtl k v c => exact coh_putWith env k v (some c) h hf
   | putToLayer k v i =>
-    unfold step putToLayer absOps layerAt
+    simp only [step, absOps]
+    unfold putToLayer layerAt
     by_cases hi : i ≥ s.slots.length
     · rw [if_pos hi]
-      have : s.slots[i]? = none := by simp; omega
+      have : s.slots[i]? = none := by simp <;> omega
       rw [this]; exact h
     · rw [if_neg hi]
-      obtain ⟨sl, hsl⟩ : ∃ sl, s.slots[i]? = some sl := ⟨s.slots[i]'(by omega), by simp; omega⟩
+      obtain ⟨sl, hsl⟩ : ∃ sl, s.slots[i]? = some sl := ⟨s.slots[i]'(by omega), by simp <;> omega⟩
       rw [hsl]
       dsimp only [Option.map]
       -- the written layer is layer i, whose default TTL class is used
@@ -747,17 +766,19 @@ theorem coh_step (env : Env) {s : State} {r : Ref} (op : Op) (h : Coh s r) (hf :
       exact key s.slots i sl hsl h hf
   | get k =>
     have hsc := coh_scan k h
-    unfold step MultiLayer.get
+    simp only [step]
     cases hq : (scan k s.slots 0).2 with
-    | none => exact hsc
-    | some p => exact hsc
+    | none => rw [get_of_none env s k hq]; exact hsc
+    | some p => obtain ⟨i, v⟩ := p; rw [get_of_some env s k hq]; exact hsc
   | getFromLayer k i =>
-    unfold step getFromLayer
+    simp only [step]
+    unfold getFromLayer
     split
     · exact h
     · exact modifyAt_pres (LRef · r) _ (fun l hl => lref_get k hl) s.slots i h
   | promote k a b =>
-    unfold step promote
+    simp only [step]
+    unfold promote
     split
     · rename_i l _ hl _
       split
@@ -784,7 +805,8 @@ theorem coh_step (env : Env) {s : State} {r : Ref} (op : Op) (h : Coh s r) (hf :
   | batchPut kvs => exact coh_batchPut env kvs s r h hf
   | putv k ck v =>
     have hput := coh_putWith env k v none h hf
-    unfold step absOps
+    simp only [step]
+    unfold absOps
     unfold putv at hput ⊢
     cases hh : env.hooks with
     | none => exact hput
@@ -802,7 +824,7 @@ theorem coh_step (env : Env) {s : State} {r : Ref} (op : Op) (h : Coh s r) (hf :
 theorem coh_get_out (env : Env) {s : State} {r : Ref} {k : Key} {v : Val} (h : Coh s r)
     (ho : (MultiLayer.get env s k).out = .val (some v)) : r k = some v := by
   rw [ml_get_first_holder] at ho
-  have hm : firstHit (peeks s k) = some v := by cases ho; assumption
+  have hm : firstHit (peeks s k) = some v := Out.val.inj ho
   obtain ⟨sl, hsl, hp⟩ := List.mem_map.mp (firstHit_mem hm)
   exact lref_peek (h sl hsl) hp
 
